@@ -1,16 +1,19 @@
-(** Results of modelled C functions (DESIGN section 4).
-    [Err] is a behaviour the C code chooses (a status code / NULL / -1);
-    [Fault] is a behaviour the safety properties forbid (memory access outside a buffer, unbounded
-    recursion, exhausted fuel = non-termination within the stated bound). *)
-From Coq Require Import NArith List.
+(** Shared result type of the models (DESIGN.md section 4).
 
-Inductive fault : Type :=
-  | OobRead | OobWrite | NullDeref | DepthExceeded | ShiftTooWide | DoubleFree | Leak | OutOfFuel.
+    [Ok a]     the C function returns normally with value [a];
+    [Err c]    a behaviour the C code chooses: it reports status code [c] (a [carquet_status_t] value,
+               see Gen/Enums_gen.v: E_CARQUET_ERROR_... : Z);
+    [Fault f]  a behaviour the safety properties forbid (the C code would read/write outside an
+               object, recurse without bound, ...).  Models never hide one behind a default value. *)
+From Coq Require Import ZArith.
+
+Inductive fault : Set :=
+| OobRead | OobWrite | NullDeref | DepthExceeded | ShiftTooWide | DoubleFree | Leak | OutOfFuel.
 
 Inductive res (A : Type) : Type :=
-  | Ok (a : A)
-  | Err (c : N)
-  | Fault (f : fault).
+| Ok (a : A)
+| Err (c : Z)
+| Fault (f : fault).
 Arguments Ok {A} a.
 Arguments Err {A} c.
 Arguments Fault {A} f.
@@ -18,15 +21,20 @@ Arguments Fault {A} f.
 Definition bind {A B} (r : res A) (k : A -> res B) : res B :=
   match r with Ok a => k a | Err c => Err c | Fault f => Fault f end.
 
-Notation "'do' x <- r ;; k" := (bind r (fun x => k)) (at level 200, x pattern, r at level 100, k at level 200).
+Definition rmap {A B} (f : A -> B) (r : res A) : res B :=
+  match r with Ok a => Ok (f a) | Err c => Err c | Fault f => Fault f end.
 
-Definition is_fault {A} (r : res A) : bool := match r with Fault _ => true | _ => false end.
 Definition is_ok {A} (r : res A) : bool := match r with Ok _ => true | _ => false end.
+Definition is_fault {A} (r : res A) : bool := match r with Fault _ => true | _ => false end.
 
-(** checked read of byte [i] of buffer [buf] *)
-Definition rd (buf : list N) (i : nat) : res N :=
-  match nth_error buf i with Some b => Ok b | None => Fault OobRead end.
+Declare Scope res_scope.
+Delimit Scope res_scope with res.
+Notation "'let*' x ':=' r 'in' k" := (bind r (fun x => k))
+  (at level 200, x pattern, r at level 100, k at level 200, right associativity) : res_scope.
 
-Lemma bind_ok {A B} (r : res A) (k : A -> res B) b :
+Lemma bind_ok {A B} (a : A) (k : A -> res B) : bind (Ok a) k = k a.
+Proof. reflexivity. Qed.
+
+Lemma bind_ok_inv {A B} (r : res A) (k : A -> res B) b :
   bind r k = Ok b -> exists a, r = Ok a /\ k a = Ok b.
-Proof. destruct r as [a|c|f]; cbn; intros H; try discriminate. exists a. split; [reflexivity|exact H]. Qed.
+Proof. destruct r; simpl; intros H; try discriminate. eauto. Qed.
